@@ -268,3 +268,32 @@ def rule_getattr_name(repo, res):
                                         "name: with a default the look-up never fails, it just never finds the table -- the code that "
                                         "depends on it never runs", where=f"pvl/{mname}.py:{call.lineno}"))
     res.oblige("GETATTR-NAME", f"{n} by-name look-ups of grammar attributes examined", ok=True, nontrivial=False)
+
+
+def rule_time_frags(repo, res):
+    """TB-FRAG: the hour / minute / second fragments from which the grammars build their leap-second and zone-offset
+    patterns match exactly two digits.  The offset pattern is `<hour: one or two digits><optional minute fragment>`: a
+    minute fragment that also takes a single digit makes `+10` read as +01:00 plus minute 0 -- the same text, another
+    instant."""
+    from . import strlang as SL
+    two = SL.length_eq(2)          # two characters (\\d also takes non-ASCII digits: not this rule's business)
+    n = 0
+    for c in tables.grammar_classes(repo):
+        g = tables.grammar_instance(repo, c)
+        for name in ("_H_frag", "_M_frag", "_S_frag"):
+            frag = getattr(g, name, None)
+            if not isinstance(frag, str):
+                continue
+            n += 1
+            try:
+                L = SL.rx(frag)
+            except Exception as x:
+                raise AnalysisError(f"TB-FRAG: {c}.{name} = {frag!r} cannot be read as a regular language: {x}")
+            bad = (L - two).witnesses(3)
+            res.oblige("TB-FRAG", f"{c}.{name} matches fields of exactly two characters", ok=not bad)
+            if bad:
+                res.add(Finding("TB-FRAG", f"grammar.{c}", f"{name} also matches {bad}",
+                                f"{c}.{name} = {frag!r} also matches {bad}: in the zone-offset pattern of the ODL family the hour takes one "
+                                "digit and this fragment the next, so `+10` is read as +01:00 (and a time written with offset +10 comes "
+                                "back as another instant)", witness=bad[0]))
+    res.floor("time fragments of the grammars", n, 3)
